@@ -14,8 +14,8 @@ func FindVertexHasLabelStart(pipe []*gripql.GraphStatement) ([]string, []*gripql
 			break
 		}
 		if i == 0 {
-			if _, ok := step.GetStatement().(*gripql.GraphStatement_V); ok {
-				//lookupV = lv
+			if lv, ok := step.GetStatement().(*gripql.GraphStatement_V); ok && len(protoutil.AsStringList(lv.V)) == 0 {
+				//a V() without ids: the label scan can stand for it
 			} else {
 				break
 			}
@@ -25,6 +25,8 @@ func FindVertexHasLabelStart(pipe []*gripql.GraphStatement) ([]string, []*gripql
 		case *gripql.GraphStatement_HasLabel:
 			labels = protoutil.AsStringList(s.HasLabel)
 			hasLabelLen = i + 1
+			//only the first hasLabel is folded into the scan, later ones stay as filters
+			isDone = true
 		default:
 			isDone = true
 		}
@@ -41,7 +43,7 @@ func FindEdgeHasLabelStart(pipe []*gripql.GraphStatement) ([]string, []*gripql.G
 			break
 		}
 		if i == 0 {
-			if _, ok := step.GetStatement().(*gripql.GraphStatement_E); ok {
+			if le, ok := step.GetStatement().(*gripql.GraphStatement_E); ok && len(protoutil.AsStringList(le.E)) == 0 {
 			} else {
 				break
 			}
@@ -51,6 +53,8 @@ func FindEdgeHasLabelStart(pipe []*gripql.GraphStatement) ([]string, []*gripql.G
 		case *gripql.GraphStatement_HasLabel:
 			labels = protoutil.AsStringList(s.HasLabel)
 			hasLabelLen = i + 1
+			//only the first hasLabel is folded into the scan, later ones stay as filters
+			isDone = true
 		default:
 			isDone = true
 		}
